@@ -36,10 +36,30 @@ DefOf(r) ==
           [] r.op = "spmv"     -> DefSpmv(K, Coef(r.a), r.A, PVec(K, r.x), Coef(r.bb), PVec(K, r.y))
           [] r.op = "residual" -> DefResidual(K, PVec(K, r.f), r.A, PVec(K, r.x))
 
+\* ---- value-type operations of block values (math::adjoint / zero / is_zero / norm / identity / inverse), N x M blocks,
+\*      row-major flat arrays; the inverse is taken of a unimodular integer block, so it is an integer block again
+MAt(K, arr, ncols, i, j) == Sc(K, arr, (i - 1) * ncols + j)
+ValueOpsClauses(r) ==
+    LET K  == KOf(r)
+        N  == r.b
+        M  == r.c
+        sq == Has(r, "id")
+        wf == /\ Len(r.m) = N * M * SW(K) /\ Len(r.adj) = N * M * SW(K) /\ Len(r.zero) = N * M * SW(K)
+              /\ (sq => (N = M /\ Len(r.id) = N * N * SW(K) /\ Len(r.u) = N * N * SW(K) /\ Len(r.inv) = N * N * SW(K)))
+    IN  IF ~wf THEN << <<"wellformed", FALSE>> >>
+        ELSE << <<"adjoint = conjugate transpose", \A i \in 1..N, j \in 1..M : MAt(K, r.adj, N, j, i) = SConj(MAt(K, r.m, M, i, j))>>,
+                <<"zero / is_zero", /\ \A e \in 1..(N * M) : Sc(K, r.zero, e) = SZero
+                                    /\ r.zero_is_zero /\ (r.m_is_zero <=> \A e \in 1..(N * M) : Sc(K, r.m, e) = SZero)>>,
+                <<"norm = Frobenius norm", r.norm2 = SSum([e \in 1..(N * M) |-> LET v == Sc(K, r.m, e) IN <<v[1] * v[1] + v[2] * v[2], 0>>])[1]>>,
+                <<"identity", sq => \A i \in 1..N, j \in 1..N : MAt(K, r.id, N, i, j) = (IF i = j THEN SOne ELSE SZero)>>,
+                <<"inverse: u * inverse(u) = identity", sq => \A i \in 1..N, j \in 1..N :
+                       SSum([k \in 1..N |-> SMul(MAt(K, r.u, N, i, k), MAt(K, r.inv, N, k, j))]) = (IF i = j THEN SOne ELSE SZero)>> >>
+
 Clauses(r) ==
     LET K  == KOf(r)
-        wf == WF(r)
-    IN  IF ~wf THEN << <<"wellformed", FALSE>> >>
+        wf == r.op = "valueops" \/ WF(r)
+    IN  IF r.op = "valueops" THEN ValueOpsClauses(r)
+        ELSE IF ~wf THEN << <<"wellformed", FALSE>> >>
         ELSE IF r.op = "inner"
         THEN << <<"inner_product=definition(conjugate-linear in 2nd argument)",
                   <<r.out[1], r.out[2]>> = DefInner(K, PVec(K, r.x), PVec(K, r.y))>> >>
